@@ -150,9 +150,12 @@ def check_next(rep, http):
                'the endpoint in Next::run is reachable while middleware remain')
     # self.next_middleware is replaced by the tail before handle is called, and handle gets the head
     tail_assign = False
+    # (the field the chain lives in is whatever split_first was called on: its name is not part of the rule)
+    from rules.props import c01 as _c01
+    chain_fields = set('.' + x for x in _c01.field_of_receiver(f, st['args'][0]))
     for bb, idx, s in f.stmts('assign'):
         d = s['d']
-        if d['p'] and d['p'][-1] == '.next_middleware':
+        if d['p'] and d['p'][-1] in chain_fields:
             for o in origins(f, s['rv']['a']) if s['rv']['k'] == 'use' else []:
                 if o.kind == 'call' and o.bb == sb and '.1' in o.suffix:
                     if f.dominates(bb, hb):
